@@ -269,7 +269,7 @@ fn filter_map_order<const N: usize>() {
 	kani::cover!(N >= 3 && !keep[0] && keep[N - 1] && keep[N - 2], "a removed feature followed by retained ones");
 	std::mem::forget(layer);
 }
-vproof! {8, fn c11_filter_map_order_3() { filter_map_order::<3>(); }}
+vproof! {5, fn c11_filter_map_order_3() { filter_map_order::<3>(); }}
 vproof! {8, fn c11_filter_map_order_4() { filter_map_order::<4>(); }}
 
 // ---------------------------------------------------------------------------------- layer: ground truth
